@@ -42,6 +42,7 @@ type Module struct {
 	cg      *callgraph.Graph
 	allFns  map[*ssa.Function]bool
 	srcFns  []*ssa.Function // functions with bodies from the module's own packages (incl. closures)
+	Inline  inlineStats     // E14: new helper functions expanded into their callers
 }
 
 func loadModule(name, dir, goos, goarch string, minPkgs int) *Module {
@@ -74,9 +75,52 @@ func loadModule(name, dir, goos, goarch string, minPkgs int) *Module {
 	if len(pkgs) < minPkgs {
 		infra("load %s: only %d packages (floor %d)", dir, len(pkgs), minPkgs)
 	}
+	// E14: expand calls to functions that do not exist in the reference tree (inline.go)
+	var ist inlineStats
+	if os.Getenv("VERIF_NOINLINE") == "" {
+		overlay := map[string][]byte{}
+		for round := 1; round <= 4; round++ {
+			next := map[string][]byte{}
+			for k, v := range overlay {
+				next[k] = v
+			}
+			if !inlineRound(pkgs, dir, round, next, &ist) {
+				break
+			}
+			cfg2 := *cfg
+			cfg2.Overlay = next
+			pkgs2, err := packages.Load(&cfg2, "./...")
+			firstErr := ""
+			if err != nil {
+				firstErr = err.Error()
+			} else {
+				packages.Visit(pkgs2, nil, func(p *packages.Package) {
+					for _, e := range p.Errors {
+						if firstErr == "" {
+							firstErr = e.Error()
+						}
+					}
+				})
+			}
+			if firstErr != "" || len(pkgs2) != len(pkgs) {
+				ist.Note += fmt.Sprintf("round %d did not type-check (%s); kept the previous round; ", round, firstErr)
+				if os.Getenv("VERIF_INLINE_DEBUG") != "" {
+					for k, v := range next {
+						os.WriteFile("/tmp/inline_debug_"+strings.ReplaceAll(strings.TrimPrefix(k, dir+"/"), "/", "_"), v, 0o644)
+					}
+				}
+				break
+			}
+			pkgs, overlay = pkgs2, next
+			ist.Rounds = round
+		}
+		if ist.Sites > 0 || ist.Note != "" {
+			fmt.Printf("normalisation (%s): %d call site(s) of new helper(s) %v expanded in %d round(s); left as calls: %v %s\n", name, ist.Sites, ist.Helpers, ist.Rounds, ist.Left, ist.Note)
+		}
+	}
 	prog, spkgs := ssautil.Packages(pkgs, ssa.InstantiateGenerics)
 	prog.Build()
-	m := &Module{Name: name, Dir: dir, GOOS: goos, GOARCH: goarch, Pkgs: pkgs, Prog: prog, SSAPkgs: spkgs,
+	m := &Module{Name: name, Dir: dir, GOOS: goos, GOARCH: goarch, Pkgs: pkgs, Prog: prog, SSAPkgs: spkgs, Inline: ist,
 		byPath: map[string]*ssa.Package{}, pkgBy: map[string]*packages.Package{}}
 	for i, p := range pkgs {
 		if spkgs[i] == nil {
